@@ -20,7 +20,7 @@ pub fn meta() -> Meta {
     Meta {
         id: "C19",
         level: "fault_enumeration",
-        rule: "valid .skf files — small 64-bit (3 samples), small 128-bit, one-sample 64- and 128-bit files (their snappy chunk is stored uncompressed), a file of 250 samples x 1200 rows in about ten snappy chunks (faults placed relative to the chunk structure, at a stride), a file of 180 samples x 200 highly compressible rows (more than 64 kB of CBOR, hence several snappy frames), a one-sample file of 270 000 rows (more than 2^18 split k-mers, some fifty chunks; faults at, before and behind every chunk start, behind its checksum, in its middle, and one flipped bit in the type, length, checksum and two in the body of every chunk), thorough: 530 000 rows likewise and a 6 kb genome file with incompressible k-mers, and the files an in-place delete and an in-place weed write — each subjected to EVERY truncation length 0..len-1 and EVERY single-bit flip of every byte; each damaged image goes through MergeSkaArray::<u64>::load then ::<u128>::load as in main: both must fail, or the accepted content (k, strand mode, names, k-mers, bases through the public API) must equal the original. CLI confirmation on the small file: every subcommand on every truncation (quick: stride 3) and on a stride of flips must exit non-zero exactly when the loader rejects, and a rejected delete/weed must leave the file byte-identical; the same damaged images under a name without the .skf suffix, next to intact files named <name>.skf, <name>.skf.skf and <name>.bak, must be rejected as well (a neighbour is never read instead). Non-trivial = a damaged image (all are); distinct outcomes = rejected / accepted-identical.".into(),
+        rule: "valid .skf files — small 64-bit (3 samples), small 128-bit, one-sample 64- and 128-bit files (their snappy chunk is stored uncompressed), a file of 250 samples x 1200 rows in about ten snappy chunks (faults placed relative to the chunk structure, at a stride), a file of 180 samples x 200 highly compressible rows (more than 64 kB of CBOR, hence several snappy frames), a file of 1200 samples named by paths of about 65 letters (the name list crosses a chunk boundary; explored like the ten-chunk file), a one-sample file of 270 000 rows (more than 2^18 split k-mers, some fifty chunks; faults at, before and behind every chunk start, behind its checksum, in its middle, and one flipped bit in the type, length, checksum and two in the body of every chunk), thorough: 530 000 rows likewise and a 6 kb genome file with incompressible k-mers, and the files an in-place delete and an in-place weed write — each subjected to EVERY truncation length 0..len-1 and EVERY single-bit flip of every byte; each damaged image goes through MergeSkaArray::<u64>::load then ::<u128>::load as in main: both must fail, or the accepted content (k, strand mode, names, k-mers, bases through the public API) must equal the original. CLI confirmation on the small file: every subcommand on every truncation (quick: stride 3) and on a stride of flips must exit non-zero exactly when the loader rejects, and a rejected delete/weed must leave the file byte-identical; the same damaged images under a name without the .skf suffix, next to intact files named <name>.skf, <name>.skf.skf and <name>.bak, must be rejected as well (a neighbour is never read instead). Non-trivial = a damaged image (all are); distinct outcomes = rejected / accepted-identical.".into(),
         assumptions: vec!["exactly one fault per image (one truncation or one flipped bit)".into(), "flips that change only the stored per-k-mer counts, k_bits or version string are reported separately (not part of the statement's 'samples, k-mers or bases')".into()],
         exhaustive_when_uncapped: true,
     }
@@ -131,6 +131,24 @@ pub fn prepare(tier: crate::explore::Tier, seed: u64, dir: &str) {
         let a: MergeSkaArray<u64> = real::forge_array(&t);
         if a.save(&p).is_ok() {
             add("many frames", &p);
+        }
+    }
+    // long NAMES: 1200 samples named by paths of about 65 letters (some 80 kB of names, crossing a 64 KiB chunk boundary of
+    // the stream), 24 rows; explored like 'many frames'
+    {
+        let n = 1200;
+        let mut rows = BTreeMap::new();
+        for i in 0..24u64 {
+            let key = String::from_utf8(crate::enumerate::nth_string(b"ACGT", 8, i * 1021 + 7)).unwrap();
+            let row: Vec<u8> = (0..n).map(|j| b"ACGT-"[((i * 3 + j as u64 * 7 + (i * j as u64) % 11) % 5) as usize]).collect();
+            rows.insert(key, row);
+        }
+        let names: Vec<String> = (0..n).map(|i| format!("/data/projects/outbreak_{:03}/isolates/batch{}/ERR{:07}.contigs.fa", (i * 37) % 1000, i % 13, 1_000_003u64 * i as u64 % 9_999_991)).collect();
+        let t = Table { k: 9, rc: true, names, rows };
+        let p = scratch::path("c19_longnames.skf");
+        let a: MergeSkaArray<u64> = real::forge_array(&t);
+        if a.save(&p).is_ok() {
+            add("long names", &p);
         }
     }
     // many ROWS: one sample, 270 000 split k-mers (more than 2^18; thorough also 530 000, more than 2^19): some 3 MB in
@@ -253,7 +271,7 @@ pub fn run(ctx: &Ctx, rep: &mut Report) {
         let s = &Subject { name: s.name.clone(), bytes: s.bytes.clone(), table: reference, state: s.state.clone() };
         let len = s.bytes.len();
         rep.extra.insert(format!("max_bytes[{}]", s.name), json!(len));
-        if s.name == "many frames" || s.name.ends_with("many rows") {
+        if s.name == "many frames" || s.name == "long names" || s.name.ends_with("many rows") {
             // too large for every position: the chunk structure of the snappy frame format is read (1 type byte, 3
             // length bytes, then the chunk) and the faults are placed relative to it
             let rows_subject = s.name.ends_with("many rows");
@@ -338,7 +356,7 @@ pub fn run(ctx: &Ctx, rep: &mut Report) {
             if rows_subject {
                 rep.completed.push(format!("'{}': truncations at, before and behind every chunk start, behind its checksum and in its middle; one flipped bit in the type, length, checksum and two in the body of every chunk", s.name));
             } else {
-                rep.completed.push("'many frames': truncations around every chunk boundary and at every 61st byte; flips of every header and checksum bit and of one bit in every 23rd byte".into());
+                rep.completed.push(format!("'{}': truncations around every chunk boundary and at every 61st byte; flips of every header and checksum bit and of one bit in every 23rd byte", s.name));
             }
             continue;
         }
